@@ -14,6 +14,16 @@ DIRECTED = [
     ('ec', 'warm-table', {'s1': 'healthy', 's2': 'healthy', 's3': 'healthy', 's4': 'weakprivatetop'},
      [{'all': False, 'check': 'CheckWeakECPrivateKey', 'batch': ['s1', 's2', 's3', 's4']},
       {'all': False, 'check': 'CheckWeakECPrivateKey', 'batch': ['s4']}]),
+    # a healthy artifact behind weak ones / behind another curve keeps the verdict it has alone
+    ('rsa', 'behind-nm1-pair', {'s1': 'healthy', 's2': 'nm1A', 's3': 'nm1B', 's4': 'healthy', 's5': 'healthy3072'},
+     [{'all': False, 'check': 'CheckGCDN1', 'batch': ['s1', 's2', 's3', 's4', 's5']}]),
+    ('ecdsa', 'behind-other-curve-and-weak', {'s1': 'healthyk1', 's2': 'healthyA', 's3': 'msbA'},
+     [{'all': False, 'check': 'CheckNonceMSB', 'batch': ['s1', 's2', 's3']}]),
+    # a key that occurs twice next to a close key: every copy gets the verdict of the first, in every order
+    ('ec', 'duplicate-and-close', {'s1': 'closeA', 's2': 'closeB', 's3': 'copy1', 's4': 'healthy'},
+     [{'all': False, 'check': 'CheckECKeySmallDifference', 'batch': ['s1', 's2', 's3']},
+      {'all': False, 'check': 'CheckECKeySmallDifference', 'batch': ['s3', 's4', 's1', 's2']},
+      {'all': False, 'check': 'CheckECKeySmallDifference', 'batch': ['s2', 's1', 's4', 's3']}]),
     ('rsa', 'mixed-sizes', {'s1': 'small', 's2': 'pattern4096', 's3': 'healthy'},
      [{'all': False, 'check': 'CheckBitPatterns', 'batch': ['s1', 's2', 's3']}, {'all': True, 'check': 'ALL', 'batch': ['s3', 's1', 's2']}]),
     ('rsa', 'sizes', {'s1': 'small', 's2': 'healthy3072', 's3': 'fermat', 's4': 'sharedA'},
